@@ -20,10 +20,10 @@ ASSUME["C13"] = ["Rust drops every owned value exactly once (no mem::forget by t
 
 SELF = ("param", 0, "self")
 DROPS = {
-    "BytesMut": (r"^<bytes::BytesMut<A> as std::ops::Drop>::drop$", "detach"),
-    "BytesRefMut": (r"^<bytes::BytesRefMut<'_, A> as std::ops::Drop>::drop$", "detach"),
-    "Owned": (r"^<object::Owned<T, A> as std::ops::Drop>::drop$", "detached"),
-    "RefMut": (r"^<object::RefMut<'_, T, A> as std::ops::Drop>::drop$", "detached"),
+    "BytesMut": (r"^<bytes::BytesMut<A> as (?:std|core)::ops::Drop>::drop$", "detach"),
+    "BytesRefMut": (r"^<bytes::BytesRefMut<'_, A> as (?:std|core)::ops::Drop>::drop$", "detach"),
+    "Owned": (r"^<object::Owned<T, A> as (?:std|core)::ops::Drop>::drop$", "detached"),
+    "RefMut": (r"^<object::RefMut<'_, T, A> as (?:std|core)::ops::Drop>::drop$", "detached"),
 }
 
 
@@ -152,7 +152,7 @@ def h4(ctx):
                 yield Ob(key_of("C13-H4", b.path, "slot-under-needs_drop"), ok, "Kind::Slot built only under needs_drop::<T>()", ctx.loc(e))
 
 
-@rule("C13-R1", "C13", 2, "constructors start the reference count at 1")
+@rule("C13-R1", "C13", lambda cfg: 4 if "memmap" in cfg else 1, "constructors start the reference count at 1")
 def r1(ctx):
     names = ["alloc"] + (["map_anon::{closure#0}", "map_mut_in::{closure#0}", "map_in::{closure#0}"] if ctx.memmap else [])
     for name in names:
@@ -170,13 +170,13 @@ def r1(ctx):
 @rule("C13-R2", "C13", 4, "clone adds exactly 1 to the reference count, once, before the copy is built; drop subtracts exactly 1, once, and frees (Box::from_raw, unmount) only when the previous value was 1")
 def r2(ctx):
     for fl in ("sync", "unsync"):
-        b = ctx.facts.one(r"^<%s::Arena as std::clone::Clone>::clone$" % fl)
+        b = ctx.facts.one(r"^<%s::Arena as (?:std|core)::clone::Clone>::clone$" % fl)
         ev, res = ctx.eval(b, no_inline=(r"RefCounter",))
         adds = [e for e in res.log if e["kind"] == "call" and (e.get("atomic") == "fetch_add" or e["callee"].endswith("RefCounter::fetch_add") or e["callee"].endswith("::fetch_add"))]
         rets = [e for e in res.log if e["kind"] == "ret0" and not e["chain"]]
         ok = len(adds) == 1 and (adds[0].get("operand") or adds[0]["args"][1]) == const(1) and all(b.dominates(adds[0]["bb"], r["bb"]) for r in rets) and not adds[0]["chain"]
         yield Ob(key_of("C13-R2", b.path, "clone-adds-1"), ok, "exactly one refs.fetch_add(1) dominating the construction of the clone", b.loc())
-        b = ctx.facts.one(r"^<%s::Arena as std::ops::Drop>::drop$" % fl)
+        b = ctx.facts.one(r"^<%s::Arena as (?:std|core)::ops::Drop>::drop$" % fl)
         ev, res = ctx.eval(b, no_inline=(r"::unmount$", r"RefCounter"))
         subs = [e for e in res.log if e["kind"] == "call" and (e.get("atomic") == "fetch_sub" or e["callee"].endswith("::fetch_sub"))]
         ok = len(subs) == 1 and (subs[0].get("operand") or subs[0]["args"][1]) == const(1)
@@ -200,17 +200,17 @@ def r3(ctx):
                 rv = st["rv"]
                 if rv["k"] == "agg" and isinstance(rv["kind"], dict) and rv["kind"].get("adt") in ("sync::Arena", "unsync::Arena"):
                     n_agg += 1
-                    ok = bool(re.search(r"as std::clone::Clone>::clone$|as std::convert::From<memory::Memory<.*>>>::from$", b.path))
+                    ok = bool(re.search(r"as (?:std|core)::clone::Clone>::clone$|as (?:std|core)::convert::From<memory::Memory<.*>>>::from$", b.path))
                     yield Ob(key_of("C13-R3", b.path, "arena-aggregate"), ok, "Arena value constructed in %s" % b.path, b.loc(bi, si))
         for bi, t in b.calls():
             c = t.get("callee") or ""
             if c.endswith("Memory::<R, PR, H>::unmount"):
-                ok = bool(re.search(r"Arena as std::ops::Drop>::drop$", b.path))
+                ok = bool(re.search(r"Arena as (?:std|core)::ops::Drop>::drop$", b.path))
                 yield Ob(key_of("C13-R3", b.path, "unmount-caller"), ok, "unmount called from %s" % b.path, b.loc(bi))
             if re.search(r"mem::forget$|ManuallyDrop", c):
                 yield Ob(key_of("C13-R3", b.path, "forget"), False, "%s used in %s: a forgotten arena never releases its reference" % (c, b.path), b.loc(bi))
             if c.endswith("Box::<T>::from_raw") and any("memory::Memory" in s for s in t.get("substs", [])):
-                ok = bool(re.search(r"Arena as std::ops::Drop>::drop$", b.path))
+                ok = bool(re.search(r"Arena as (?:std|core)::ops::Drop>::drop$", b.path))
                 yield Ob(key_of("C13-R3", b.path, "memory-free"), ok, "Box::<Memory>::from_raw in %s" % b.path, b.loc(bi))
 
 
